@@ -86,7 +86,7 @@ def _finish(fields, nfields, cb_hash):
             "stripped": rlp_encode(hash_fields)}
 
 
-def gen_block(rng, nfields=None, tiny=False, small_tail=False):
+def gen_block(rng, nfields=None, tiny=False, small_tail=False, coinbase=None):
     """returns dict(raw, fields, mm_payload_len, cb_hash or None, hash)"""
     nfields = nfields or rng.choice([17, 18, 19, 19, 20, 20])
     if tiny:
@@ -106,6 +106,8 @@ def gen_block(rng, nfields=None, tiny=False, small_tail=False):
     if nfields in (19, 20):
         fields.append(rng.randbytes(32 * rng.randint(0, 0 if small_tail else 6)))
         comp, cb_hash = gen_coinbase(rng, small_tail)
+        if coinbase is not None:
+            comp, cb_hash = coinbase, None
         fields.append(comp)
     assert len(fields) == nfields
     return _finish(fields, nfields, cb_hash)
